@@ -496,7 +496,9 @@ class C17Conf(Suite):
                 ops.append("OOther")
             else:
                 ops.append(c_op(op))
-        return "{| c_cats := []; c_ops := " + clist(ops) + "; c_tag := 0%N |}"
+        flat = [op for op in self.expanded_ops(case) if op[0] not in ("parse", "ser", "add")]
+        cats = clist(ctuple(cN(c), cN(k)) for c, k in cat_table({"ops": flat}))
+        return "{| c_cats := " + cats + "; c_ops := " + clist(ops) + "; c_tag := 0%N |}"
 
     def coq_obs(self, obs):
         tab, body = pack_obs(obs)
@@ -710,8 +712,7 @@ class C17DsConf(C17Conf):
     every object after each step; the verified per-step checker on every snapshot."""
 
     name = "nsdsconform"
-    kf = "conf_kf"
-    kf_ids = {4: "F6e"}
+    spec = "confd_spec_t"
     corr = "Dataset/ConjunctiveGraph.parse/serialize/bind, get_context, default_context (conformance only)"
     quick_n = 30
     thorough_n = 1500
@@ -770,6 +771,8 @@ class C17DsConf(C17Conf):
     def run_impl(self, case):
         root = make_root(case["root"], case["defaults"])
         objs = Objs(root, case["objs"])
+        if any(k == "dc" for k, _ in case["objs"]):
+            root.default_context.namespace_manager  # its own manager (F6e) comes into being here, not while observing
         names = sorted(set(case["iris"]) | {s for s in case_strings(case) if s in NAMESPACES})
         obs = []
         for op, v in zip(case["ops"], case["via"]):
@@ -798,7 +801,9 @@ class C17DsConf(C17Conf):
 
     def coq_case(self, case):
         ops = ["OOther" if op[0] in ("parse", "ser", "add") else c_op(op) for op in self.expanded_ops(case)]
-        return "{| c_cats := []; c_ops := " + clist(ops) + "; c_tag := " + cN(self.tag(case)) + " |}"
+        flat = [op for op in self.expanded_ops(case) if op[0] not in ("parse", "ser", "add")]
+        cats = clist(ctuple(cN(c), cN(k)) for c, k in cat_table({"ops": flat}))
+        return "{| c_cats := " + cats + "; c_ops := " + clist(ops) + "; c_tag := " + cN(self.tag(case)) + " |}"
 
     def features(self, case, obs):
         f = {"root_" + case["root"]: 1, "defaults_" + str(case["defaults"]): 1, "snapshots": len(obs),
